@@ -153,6 +153,16 @@ func pairCases() []pairCase {
 		cs = append(cs, pairCase{"job-id-first-letter:def:" + lo, job(lo, lo), job(up, lo)}, pairCase{"job-id-first-letter:use:" + lo, job(lo, lo), job(lo, up)},
 			pairCase{"step-id-first-letter:def:" + lo, step(lo, lo), step(up, lo)}, pairCase{"step-id-first-letter:use:" + lo, step(lo, lo), step(lo, up)})
 	}
+	// an input / secret of a local reusable workflow declared WITHOUT a body (`name:`), the callee
+	// read from its file; ASCII names in several spellings
+	for _, nm := range [][2]string{{"null_in", "Null_In"}, {"tok", "TOK"}, {"a-b", "A-b"}} {
+		lo, up := nm[0], nm[1]
+		f := func(def, use string) pairMember {
+			return pairMember{Workflow: "on: push\njobs:\n  c:\n    uses: ./.github/workflows/reusable.yml\n    with:\n      " + use + ": a\n    secrets:\n      " + use + ": b\n",
+				Reusable: "on:\n  workflow_call:\n    inputs:\n      " + def + ":\n      other:\n        type: string\n    secrets:\n      " + def + ":\njobs:\n  a:\n    runs-on: ubuntu-latest\n    steps:\n      - run: echo\n"}
+		}
+		cs = append(cs, pairCase{"reusable-null-body:def:" + lo, f(lo, lo), f(up, lo)}, pairCase{"reusable-null-body:use:" + lo, f(lo, lo), f(lo, up)}, pairCase{"reusable-null-body:both:" + lo, f(lo, lo), f(up, up)})
+	}
 	for _, fn := range [][2]string{{"always()", "Always()"}, {"success()", "SUCCESS()"}, {"failure()", "failurE()"}, {"cancelled()", "Cancelled()"}, {"hashfiles('x')", "HashFiles('x')"}, {"hashFiles('x')", "HASHFILES('x')"}} {
 		at := func(e string) pairMember {
 			return pairMember{Workflow: "on: push\nenv:\n  A: ${{ " + e + " }}\njobs:\n  a:\n    runs-on: ubuntu-latest\n    env:\n      B: ${{ " + e + " }}\n    steps:\n      - run: echo ${{ " + e + " }}\n        if: ${{ " + e + " }}\n"}
